@@ -29,6 +29,7 @@ def main():
     ap = argparse.ArgumentParser()
     ap.add_argument("prop"); ap.add_argument("sid"); ap.add_argument("patch"); ap.add_argument("demo")
     ap.add_argument("--summary", default=""); ap.add_argument("--needs", default=""); ap.add_argument("--tier", default="quick")
+    ap.add_argument("--extra", default="", help="comma-separated helper files the demo imports/reads (copied next to demo.py)")
     ap.add_argument("--checks", default=None, help="comma-separated list of properties whose checks to run (default: prop)")
     a = ap.parse_args()
     wt = "/tmp/evalseed_%s" % a.sid
@@ -83,6 +84,8 @@ def finish(a, meta, wt):
     if valid:
         out.mkdir(parents=True, exist_ok=True)
         shutil.copy(a.patch, out / "patch.diff"); shutil.copy(a.demo, out / "demo.py")
+        for x in [e for e in a.extra.split(",") if e]:
+            shutil.copy(x, out / os.path.basename(x))
         (out / "meta.json").write_text(json.dumps(meta, indent=1))
     print(json.dumps(meta, indent=1))
     return 0
